@@ -400,20 +400,20 @@ pub fn create(m: &[u32], df: u32, icao: u32) -> Plane {
 /// what `read_lines` does before touching the table: a frame is applied only when a DF and a
 /// non-zero address can be read from it. Returns (df, address).
 ///
-/// For the address/parity formats (DF0/4/5/16/20/21) the address is AP xor CRC-24; that equality is
-/// decided for every frame by the C03 harnesses. Row-step harnesses are about what the frame does
-/// to the row, which does not depend on the address value, so under Kani the CRC is cut: the address
-/// is an arbitrary non-zero 24-bit value (CRC-88 next to the Comm-B decoder costs > 25 min / 8 GB).
-/// Native replay computes the real address.
+/// Address recovery (AA, or AP xor CRC-24) is decided for every frame by the C03 harnesses. Row-step
+/// harnesses are about what the frame does to the row, which does not depend on the address VALUE,
+/// so they stub `get_icao` (see `stub_get_icao`): the address is an arbitrary 24-bit value, a zero
+/// address drops the frame as in the reader. (CRC-88 next to the Comm-B decoder costs > 25 min / 8 GB.)
+/// Native replay has no stubs and computes the real address.
+pub static mut PIN_ICAO: u32 = 0;
+pub fn stub_get_icao(_m: &[u32], _df: u32) -> Option<u32> {
+    let a = unsafe { PIN_ICAO };
+    if a == 0 { None } else { Some(a) }
+}
 pub fn accepted(m: &[u32]) -> Option<(u32, u32)> {
     let df = get_downlink_format(m)?;
     let drawn = any_below(1 << 24);
-    let ap_format = matches!(df, 0 | 4 | 5 | 16 | 20 | 21);
-    #[cfg(kani)]
-    if ap_format {
-        assume(drawn != 0);
-        return Some((df, drawn));
-    }
+    unsafe { PIN_ICAO = drawn };
     let icao = get_icao(m, df)?;
     Some((df, icao))
 }
@@ -484,4 +484,23 @@ pub fn stub_haversine(a: f64, b: f64, c: f64, d: f64) -> f64 {
         HAV_ARGS = (a, b, c, d);
         HAV_RET
     }
+}
+
+// ---------------------------------------------------------------------------------------------
+// CPR parity pinning. `self.cpr_lat[cpr_form as usize] = ..` with a symbolic parity is a
+// symbolic-index write into the row struct; CBMC then models the whole row as a byte array and
+// every later pointer read from it (callsign String) explodes (> 35 GB). Position-squitter
+// harnesses therefore pin the F bit the same way DF/TC are pinned: `cpr()` is replaced by a stub
+// returning (pinned F, bits 55-71, bits 72-88) that asserts bit 54 == pinned F; the lemma
+// `lemma_cpr_is_bits_54_88` decides that the real `cpr()` returns exactly those fields.
+// ---------------------------------------------------------------------------------------------
+pub static mut PIN_F: u32 = 99;
+pub fn pin_f(m: &[u32], f: u32) {
+    assume(bit(m, 54) == f);
+    unsafe { PIN_F = f };
+}
+pub fn stub_cpr(m: &[u32]) -> Option<(u32, u32, u32)> {
+    let f = unsafe { PIN_F };
+    assert!(bit(m, 54) == f, "pinned CPR parity differs from the frame's F bit");
+    Some((f, bits(m, 55, 71) as u32, bits(m, 72, 88) as u32))
 }
